@@ -185,19 +185,59 @@ SRC = (
     "    _trace.append(('ko2', x))\n"
     "    return KeyOverrideResult('B' * 40 + str(x), 'shared/override-key')\n"
     "@m.memento_function(version='1')\n"
+    "def s1(x):\n"
+    "    _trace.append(('s1', x))\n"
+    "    return 'same-bytes' * 12\n"
+    "@m.memento_function(version='1')\n"
+    "def s2(x):\n"
+    "    _trace.append(('s2', x))\n"
+    "    return 'same-bytes' * 12\n"
+    "@m.memento_function(version='1')\n"
     "def boom(x):\n"
     "    _trace.append(('boom', x))\n"
     "    raise KeyError('boom%s' % x)\n"
 )
 STORES = ["memory", "fs", "fs+cache:1", "fs+cache:small"]
 SMALL_MB = 330 / 1048576.0  # budget of 330 bytes: one ~150-byte value plus a few 48-byte mementos fit, two values do not
-KEYS = ["same-call", "same-fn-different-args", "different-fns", "same-failing-call", "different-fns-writing-one-override-key"]
+KEYS = ["same-call", "same-fn-different-args", "different-fns", "same-failing-call", "different-fns-writing-one-override-key",
+        "different-fns-producing-the-same-bytes", "same-call-through-modifier-clones"]
 STATES = ["cold", "warm-store-cold-cache", "warm"]
 
 
 def _kind(store):
     s = STORES[store]
     return "fs+cache:%r" % SMALL_MB if s == "fs+cache:small" else s
+
+
+class _Clone:
+    """a modifier clone of a memento function standing for the SAME call of the original (for the oracles: .fn / memento / forget)"""
+
+    def __init__(self, clone, original, bound=False):
+        self.clone, self.original, self.bound = clone, original, bound
+        self.fn = original.fn
+        self.__name__ = original.__name__
+
+    def call(self, x):
+        return self.clone.call() if self.bound else self.clone.call(x)
+
+    def __call__(self, x):
+        return self.clone() if self.bound else self.clone(x)
+
+    def memento(self, x):
+        return self.original.memento(x)
+
+    def __hash__(self):
+        return hash(self.original)
+
+    def __eq__(self, other):
+        return getattr(other, "original", other) is self.original
+
+
+def _entry(fn, x):
+    """thread entry: the (instrumented) call method of the memento function / of the modifier clone itself"""
+    if isinstance(fn, _Clone):
+        return (fn.clone.call, () if fn.bound else (x,), {})
+    return (fn.call, (x,), {})
 
 
 def _calls(prog, key, nthreads):
@@ -210,6 +250,11 @@ def _calls(prog, key, nthreads):
         return [(prog.f, 1), (prog.g, 1), (prog.f, 2)][:nthreads]
     if k == "different-fns-writing-one-override-key":
         return [(prog.ko1, 1), (prog.ko2, 1), (prog.ko1, 2)][:nthreads]
+    if k == "different-fns-producing-the-same-bytes":
+        return [(prog.s1, 1), (prog.s2, 1), (prog.s1, 2)][:nthreads]
+    if k == "same-call-through-modifier-clones":
+        # the same call f(1), made through the function itself, a force_local() clone and a partial() clone
+        return [(prog.f, 1), (_Clone(prog.f.force_local(), prog.f), 1), (_Clone(prog.f.partial(1), prog.f, bound=True), 1)][:nthreads]
     return [(prog.boom, 1)] * nthreads
 
 
@@ -297,7 +342,7 @@ def _sequential_reference(store, key, state, nthreads):
             sb.close()
     sb, prog, calls = _prepare(store, key, state, nthreads)
     try:
-        s = run_threads("G", [(fn.call, (x,), {}) for fn, x in calls], [])
+        s = run_threads("G", [_entry(fn, x) for fn, x in calls], [])
         steps = s.steps
     finally:
         prog.close()
@@ -313,7 +358,7 @@ def _run_scenario(mode, store, key, state, schedule, nthreads=2, tag=""):
     gc_was = gc.isenabled()
     gc.disable()
     try:
-        entries = [(fn.call, (x,), {}) for fn, x in calls]
+        entries = [_entry(fn, x) for fn, x in calls]
         want = _expected(calls)  # runs the raw bodies: clear the side-channel trace afterwards
         prog.trace.clear()
         try:
@@ -371,8 +416,11 @@ def _run_scenario(mode, store, key, state, schedule, nthreads=2, tag=""):
 def _valid(store, key, state):
     if STORES[store] in ("memory", "fs") and STATES[state] == "warm-store-cold-cache":
         return False  # no cache: same as warm
-    if KEYS[key] == "different-fns-writing-one-override-key" and (STORES[store] == "memory" or STATES[state] != "cold"):
-        return False  # concurrent WRITES to one key: filesystem stores, cold
+    if KEYS[key] in ("different-fns-writing-one-override-key", "different-fns-producing-the-same-bytes") and (
+            STORES[store] == "memory" or STATES[state] != "cold"):
+        return False  # concurrent WRITES to one key (an override key / one content key): filesystem stores, cold
+    if KEYS[key] == "same-call-through-modifier-clones" and STATES[state] != "cold":
+        return False
     return True
 
 
@@ -393,7 +441,7 @@ def _steps_of(sc, nthreads, schedule):
         sb, prog, calls = _prepare(store, key, state, nthreads)
         try:
             try:
-                drv = run_threads("G", [(fn.call, (x,), {}) for fn, x in calls], schedule)
+                drv = run_threads("G", [_entry(fn, x) for fn, x in calls], schedule)
                 _LEN[kk] = drv.steps if drv.preemptions_used == len(schedule) else None
             except (sched.InfeasibleSchedule, sched.Deadlock, sched.StepLimit):
                 _LEN[kk] = None
@@ -495,7 +543,7 @@ def _calls_body(sc, chunk, j1, j2, P, nthreads=2, t1=0, t2=0):
 
 
 _CALLS_BOUNDS = ("threads calling memento functions through MementoFunction.call; scenarios {memory, fs, fs + 1 MiB cache, fs + 330-byte cache "
-                 "(one value fits, two do not)} x {same call, same function different arguments, different functions, same failing call} x "
+                 "(one value fits, two do not)} x {same call, same function different arguments, different functions, same failing call, different functions writing one override key / producing the same bytes, the same call through modifier clones} x "
                  "{cold, warm store + cold cache, warm}; a pre-emption is possible before every statement (and loop re-test) of the "
                  "instrumented functions (runner_local, MemoryCache, StorageBackendBase, MemoryStorageBackend, CallStack, call entry points); "
                  "everything else (C code, file-system calls, un-instrumented helpers, function bodies) is atomic. Bounds on the pre-emption "
@@ -806,3 +854,48 @@ def cache_race(pair: tuple, ka: bool, kb: bool, r0: bool, r1: bool, h0: bool, h1
 def cache_race_p2(pair: tuple, ka: bool, kb: bool, r0: bool, r1: bool, h0: bool, h1: bool, z0: int, z1: int, budget: int,
                   na: int, nb: int, s1: int, s2: int, P: int):
     cache_race(pair, ka, kb, r0, r1, h0, h1, z0, z1, budget, na, nb, s1, s2, P)
+
+
+@obligation(
+    "C09.mutex_table",
+    covers=("held-lock-survives-other-invocations", "clones-share-the-lock"),
+    bounds="the per-invocation lock table: while a lock for invocation a is held, looking up the locks of N other invocations "
+           "(N in {0, 1, 1500, 5000}; different arguments, another function) and then the lock of a again gives the SAME lock object (single "
+           "flight cannot silently lapse once many calls have been made); different invocations get different locks; the same call "
+           "made through force_local() / partial() clones gets the same lock",
+    variables="choice: N, clone kind",
+    budget_s={"quick": 120, "thorough": 300},
+    choice_vars=2,
+)
+def mutex_table(ni: int, ck: int):
+    ni = pick(ni, 4)
+    ck = pick(ck, 3)
+    with concrete_region():
+        from twosigma.memento.reference import FunctionReferenceWithArguments as FWA
+
+        N = [0, 1, 1500, 5000][ni]
+        sb = Sandbox(kinds="memory")
+        prog = _KeepProgram.get()
+        try:
+            reset_memento_globals()
+            a = FWA(prog.f.fn_reference(), (1,), {})
+            la = _runner_local._mutex_for_invocation(a)
+            got = la.acquire(blocking=False)
+            check("fresh-lock-is-free", got, None)
+            try:
+                for i in range(N):
+                    other = FWA((prog.g if i % 2 else prog.f).fn_reference(), (i + 2,), {})
+                    lo = _runner_local._mutex_for_invocation(other)
+                    if i < 3:
+                        check("different-invocations-get-different-locks", lo is not la, i)
+                cover("held-lock-survives-other-invocations")
+                check("same-invocation-gets-the-same-lock-while-it-is-held", _runner_local._mutex_for_invocation(FWA(prog.f.fn_reference(), (1,), {})) is la, N)
+                clone = [prog.f, prog.f.force_local(), prog.f.partial(1)][ck]
+                ca = FWA(clone.fn_reference(), () if ck == 2 else (1,), {})
+                cover("clones-share-the-lock")
+                check("same-call-through-a-modifier-clone-gets-the-same-lock", _runner_local._mutex_for_invocation(ca) is la,
+                      (ck, ca.fn_reference.qualified_name, ca.arg_hash, a.arg_hash))
+            finally:
+                la.release()
+        finally:
+            sb.close()
